@@ -31,6 +31,13 @@ FUNCTIONAL expressions (sum, product, quotient with a non-constant divisor away 
 composition with operators / ufunc functionals, scalar and vector multiples; LINEAR functionals
 (QuadraticForm(vector), <., u>, ZeroFunctional, multiples and sums), made AFFINE by translation or
 an added constant, under every composite whose derivative short-cuts on is_linear).
+SHARED-OBJECT strata: the same operator object in several slots of OperatorSum /
+OperatorPointwiseProduct / OperatorComp (op * op) / Broadcast / Reduction / Diagonal /
+ProductSpaceOperator, incl. the power-space constructors cls(op, n), with nonlinear op.
+HISTORY stratum (every object the oracle sees): derivative(x) twice; x, y, x interleaved; after an
+in-place change of the element passed before, derivative is the one at the NEW value (fresh element
+and central differences at the new point).  Whether an operator returned earlier follows a later
+in-place change of the point is recorded as an observation only.
 Oracle for the FLAG: every operator/functional the streams build (leaf or composite, and every
 derivative returned) that is flagged is_linear must map 0 to 0 and be additive and homogeneous
 (over the reals) on random points.  NotImplementedError
@@ -211,6 +218,29 @@ def gen_leaf(rng, S, T):
     return {'k': 'const', 'dom': S, 'ran': T, 'c': c}
 
 
+NONLINEAR_KINDS = ('pprod', 'normsq', 'cmodsq')
+
+
+def is_nonlinear_spec(n):
+    return any(m['k'] in NONLINEAR_KINDS or (m['k'] == 'pow' and m['p'] > 1) or
+               (m['k'] == 'const' and any(m['c'])) or m['k'] == 'vecsum' for m in walk(n))
+
+
+def gen_nonlinear(rng, S, T, depth):
+    """gen, re-drawn (a few times) until the tree is not linear."""
+    n = gen(rng, S, T, max(depth, 1))
+    for _ in range(6):
+        if is_nonlinear_spec(n):
+            break
+        n = gen(rng, S, T, max(depth, 1))
+    return n
+
+
+def all_equal(seq):
+    seq = list(seq)
+    return len(seq) >= 2 and all(x == seq[0] for x in seq)
+
+
 def gen(rng, S, T, depth):
     """Random tree mapping mk_space(S) -> mk_space(T)."""
     if depth <= 0 or rng.random() < 0.12:
@@ -239,10 +269,17 @@ def gen(rng, S, T, depth):
         return gen_leaf(rng, S, T)
     k = rng.choice(ks)
     d1 = depth - 1
+    share = rng.random() < 0.22      # THE SAME operator object in several slots
     if k == 'sum':
-        node = {'k': 'sum', 'dom': S, 'ran': T, 'l': gen(rng, S, T, d1), 'r': gen(rng, S, T, d1),
+        left = gen_nonlinear(rng, S, T, d1) if share else gen(rng, S, T, d1)
+        node = {'k': 'sum', 'dom': S, 'ran': T, 'l': left, 'r': left if share else gen(rng, S, T, d1),
                 'tr': T != 'R' and rng.random() < 0.5, 'td': rng.random() < 0.4}
+        if share:
+            node['shared'] = True
         return node
+    if k == 'comp' and share and S == T and not is_cplx(S) and T != 'R':
+        o = gen_nonlinear(rng, S, T, d1)
+        return {'k': 'comp', 'dom': S, 'ran': T, 'l': o, 'r': o, 'tmp': rng.random() < 0.4, 'shared': True}
     if k == 'comp':
         if is_cplx(S) and is_cplx(T):
             M = rng.choice([S[1], S])
@@ -269,19 +306,40 @@ def gen(rng, S, T, depth):
     if k == 'rvec':
         return {'k': k, 'dom': S, 'ran': T, 'op': gen(rng, S, T, d1), 'v': rints(rng, dim(S))}
     if k == 'pprod':
+        if share:
+            o = gen(rng, S, T, d1)
+            return {'k': k, 'dom': S, 'ran': T, 'l': o, 'r': o, 'shared': True}
         return {'k': k, 'dom': S, 'ran': T, 'l': gen(rng, S, T, d1), 'r': gen(rng, S, T, d1)}
     if k == 'flvec':
         return {'k': k, 'dom': S, 'ran': T, 'op': gen(rng, S, 'R', d1), 'v': rints(rng, dim(T))}
+    share = share or rng.random() < 0.25
     if k == 'bcast':
+        if share and all_equal(T):
+            o = gen_nonlinear(rng, S, T[0], d1)
+            return {'k': k, 'dom': S, 'ran': T, 'ops': [o] * len(T), 'shared': True,
+                    'power': rng.random() < 0.5}
         return {'k': k, 'dom': S, 'ran': T, 'ops': [gen(rng, S, t, d1) for t in T]}
     if k == 'diag':
+        if share and all_equal(S) and all_equal(T):
+            o = gen_nonlinear(rng, S[0], T[0], d1)
+            return {'k': k, 'dom': S, 'ran': T, 'ops': [o] * len(T), 'shared': True,
+                    'power': rng.random() < 0.5}
         return {'k': k, 'dom': S, 'ran': T, 'ops': [gen(rng, s, t, d1) for s, t in zip(S, T)]}
     if k == 'reduce':
+        if share and all_equal(S):
+            o = gen_nonlinear(rng, S[0], T, d1)
+            return {'k': k, 'dom': S, 'ran': T, 'ops': [o] * len(S), 'shared': True,
+                    'power': rng.random() < 0.5}
         return {'k': k, 'dom': S, 'ran': T, 'ops': [gen(rng, s, T, d1) for s in S]}
     if k == 'pso':
         ents = [[i, j] for i in range(len(T)) for j in range(len(S)) if rng.random() < 0.55]
         if not ents:
             ents = [[rng.randrange(len(T)), rng.randrange(len(S))]]
+        if share and all_equal(S) and all_equal(T):
+            if len(ents) < 2:
+                ents = [[0, 0], [len(T) - 1, len(S) - 1]]
+            o = gen_nonlinear(rng, S[0], T[0], d1)
+            return {'k': k, 'dom': S, 'ran': T, 'ent': ents, 'ops': [o] * len(ents), 'shared': True}
         return {'k': k, 'dom': S, 'ran': T, 'ent': ents,
                 'ops': [gen(rng, S[j], T[i], d1) for i, j in ents]}
     raise AssertionError(k)
@@ -445,9 +503,11 @@ def _build(n):
     if k == 'sum':
         tr = mk_space(n.get('tr_bad', T)).element() if n['tr'] else None
         td = mk_space(n.get('td_bad', S)).element() if n['td'] else None
-        return odl.OperatorSum(build(n['l']), build(n['r']), tr, td)
+        left = build(n['l'])
+        return odl.OperatorSum(left, left if n.get('shared') else build(n['r']), tr, td)
     if k == 'comp':
-        left, right = build(n['l']), build(n['r'])
+        left = build(n['l'])
+        right = left if n.get('shared') else build(n['r'])
         tmp = (mk_space(n['tmp_bad']).element() if 'tmp_bad' in n else left.domain.element()) \
             if n['tmp'] else None
         return odl.OperatorComp(left, right, tmp)
@@ -466,19 +526,24 @@ def _build(n):
     if k == 'rvec':
         return odl.OperatorRightVectorMult(build(n['op']), elem(S, n['v']))
     if k == 'pprod':
-        return odl.OperatorPointwiseProduct(build(n['l']), build(n['r']))
+        left = build(n['l'])
+        return odl.OperatorPointwiseProduct(left, left if n.get('shared') else build(n['r']))
     if k == 'flvec':
         return odl.FunctionalLeftVectorMult(build(n['op']), elem(T, n['v']))
-    if k == 'bcast':
-        return odl.BroadcastOperator(*[build(o) for o in n['ops']])
-    if k == 'reduce':
-        return odl.ReductionOperator(*[build(o) for o in n['ops']])
-    if k == 'diag':
-        return odl.DiagonalOperator(*[build(o) for o in n['ops']])
+    if k in ('bcast', 'reduce', 'diag'):
+        cls = {'bcast': odl.BroadcastOperator, 'reduce': odl.ReductionOperator,
+               'diag': odl.DiagonalOperator}[k]
+        if n.get('shared'):
+            o = build(n['ops'][0])          # ONE object in every slot
+            if n.get('power'):
+                return cls(o, len(n['ops']))   # the power-space constructor
+            return cls(*([o] * len(n['ops'])))
+        return cls(*[build(o) for o in n['ops']])
     if k == 'pso':
         mat = [[0] * len(S) for _ in T]
+        shared_op = build(n['ops'][0]) if n.get('shared') else None
         for (i, j), o in zip(n['ent'], n['ops']):
-            mat[i][j] = build(o)
+            mat[i][j] = shared_op if shared_op is not None else build(o)
         return odl.ProductSpaceOperator(mat, domain=mk_space(S), range=mk_space(T))
     if k == 'cmodsq':
         return odl.ComplexModulusSquared(mk_space(S))
@@ -602,7 +667,9 @@ TOP_SPACES = [(2, 2), (2, 3), (3, 2), (3, 3), (1, 2), (2, 1), (3, 1), ((2, 1), 2
               ((2, 2), (2, 2)), ((1, 2), (2, 1)), (3, 'R'), (2, 'R'), ((2, 1), 'R'), (2, (2, 2)),
               ((2, 1), 3), ((2, 1), (1, 2)), ((1, 2), (2, 2)), ((2, 2), (3, 1)), ((2, 1, 1), (2, 2)),
               (('c', 2), 2), (2, ('c', 2)), (3, ('c', 3)), (('c', 1), 1), (2, 2), (3, 3),
-              (('c', 2), ('c', 2)), (('c', 2), ('c', 2)), (('c', 1), ('c', 1)), (('c', 2), 2)]
+              (('c', 2), ('c', 2)), (('c', 2), ('c', 2)), (('c', 1), ('c', 1)), (('c', 2), 2),
+              ((2, 2), (2, 2)), ((2, 2), 2), (2, (2, 2)), ((2, 2), (3, 3)), ((1, 1, 1), (2, 2, 2)),
+              ((2, 2), (2, 2)), (3, (2, 2, 2)), ((3, 3), 2)]
 
 
 def gen_case(rng, depth):
@@ -656,7 +723,10 @@ def cd_check(op, x, d, Dd, tol=1e-7, ks=range(4, 15), rate=True):
     rerr = [float(np.max(np.abs(r - Dd))) for r in rich]
     i = int(np.argmin(rerr))
     R = rich[i]
-    comp_tol = tol * np.maximum(np.abs(Dd), np.abs(R)) + 1e-10 * vscale
+    # the oracle's own uncertainty: spread of the two finest extrapolations (pure round-off /
+    # truncation of the difference quotients, independent of Dd)
+    spread = float(np.max(np.abs(rich[-1] - rich[-2]))) if len(rich) >= 2 else 0.0
+    comp_tol = tol * np.maximum(np.abs(Dd), np.abs(R)) + 1e-10 * vscale + 4 * spread
     bad = np.abs(R - Dd) > comp_tol
     if np.any(bad):
         c = int(np.argmax(np.abs(R - Dd) - comp_tol))
@@ -745,7 +815,9 @@ def linear_flag_check(op, rtol=1e-9):
     rhs = a * ox + b * oy
     sc = max(float(np.max(np.abs(lhs))) if lhs.size else 0.0,
              float(np.max(np.abs(ox))) if ox.size else 0.0,
-             float(np.max(np.abs(oy))) if oy.size else 0.0, 1e-300)
+             float(np.max(np.abs(oy))) if oy.size else 0.0,
+             # round-off of cancelling intermediate terms is relative to the inputs, not to a result ~ 0
+             float(np.max(np.abs(flat(x)))), float(np.max(np.abs(flat(y)))), 1.0)
     if not (np.all(np.isfinite(lhs)) and np.all(np.isfinite(rhs)) and np.all(np.isfinite(o0))):
         return None
     if o0.size and float(np.max(np.abs(o0))) > 1e-12 * max(sc, 1.0):
@@ -756,6 +828,85 @@ def linear_flag_check(op, rtol=1e-9):
                 .format(np.array2string(lhs[:4], precision=8), np.array2string(rhs[:4], precision=8),
                         a, b, op))[:500]
     return None
+
+
+HIST = {}          # counters of the history stratum / observations, copied into ctx.branches by run()
+_HIST_N = [0]
+
+
+def _hist(key, n=1):
+    HIST[key] = HIST.get(key, 0) + n
+
+
+def _same(a, b):
+    a, b = flat(a), flat(b)
+    if a.shape != b.shape:
+        return False
+    return bool(np.allclose(a, b, rtol=1e-13, atol=1e-300, equal_nan=True))
+
+
+def history_check(op, x, d, r1, tol):
+    """derivative(x) must depend on the VALUE of the point at the time of the call only:
+    * derivative(x) twice on the unchanged x acts the same;
+    * interleaving derivative calls at x, y, x gives the x-result again;
+    * after an IN-PLACE change of the element object passed before, derivative(<that object>) is
+      the derivative at the NEW value (equal to the derivative at a fresh element of that value,
+      and checked against central differences at the new point every third time).
+    Whether an operator returned EARLIER changes when the point is mutated later (snapshot
+    semantics) is recorded as an observation only."""
+    problems = []
+    if not hasattr(x, 'assign'):
+        return problems            # numbers (field domains) cannot be changed in place
+    try:
+        with np.errstate(all='ignore'):
+            if not _same(op.derivative(x)(d), r1):
+                problems.append('derivative(x) called twice on the unchanged x gives different operators: '
+                                '{} then {}'.format(np.array2string(flat(r1)[:4], precision=8),
+                                                    np.array2string(flat(op.derivative(x)(d))[:4], precision=8)))
+            _hist('oracle/history/repeat-same-point')
+            y = 0.75 * x                       # a different point of the same kind (sign/regime kept)
+            ry = op.derivative(y)(d)
+            if not np.all(np.isfinite(flat(ry))):
+                return problems
+            if not _same(op.derivative(x)(d), r1):
+                problems.append('derivative at x, then at y = 0.75 x, then at x again: the second x-result {} '
+                                'differs from the first {}'.format(
+                                    np.array2string(flat(op.derivative(x)(d))[:4], precision=8),
+                                    np.array2string(flat(r1)[:4], precision=8)))
+            _hist('oracle/history/interleaved-x-y-x')
+            xm = x.copy()
+            dA = op.derivative(xm)
+            rA = dA(d)
+            rA = rA.copy() if hasattr(rA, 'copy') else rA
+            xm.assign(y)                       # in-place change of the element passed before
+            rB = op.derivative(xm)(d)
+            _hist('oracle/history/in-place-mutation')
+            if not _same(rB, ry):
+                problems.append('history: after derivative(x) and the in-place update x.assign(0.75 x), '
+                                'derivative(x)(d) = {} is not the derivative at the new point (fresh element: {}; '
+                                'value before the update: {})'.format(
+                                    np.array2string(flat(rB)[:4], precision=8),
+                                    np.array2string(flat(ry)[:4], precision=8),
+                                    np.array2string(flat(rA)[:4], precision=8)))
+            _HIST_N[0] += 1
+            if _HIST_N[0] % 3 == 0 and not problems:
+                v = flat(op(y))
+                c12 = (flat(op(y + 2.0 ** -12 * d)) - flat(op(y - 2.0 ** -12 * d))) * 2.0 ** 11
+                c14 = (flat(op(y + 2.0 ** -14 * d)) - flat(op(y - 2.0 ** -14 * d))) * 2.0 ** 13
+                ok = np.all(np.isfinite(v)) and np.all(np.isfinite(c12)) and np.all(np.isfinite(c14))
+                if ok and c14.size and np.max(np.abs(c12 - c14)) <= 1e-5 * max(
+                        np.max(np.abs(c14)), 1e-3 * max(np.max(np.abs(v)), 1.0)):
+                    msg = cd_check(op, y, d, rB, tol=tol, rate=False)
+                    _hist('oracle/history/cd-at-mutated-point')
+                    if msg:
+                        problems.append('history (derivative taken after an in-place update of x): ' + msg)
+            # observation: does the operator returned earlier follow the later mutation?
+            if not _same(dA(d), rA):
+                _hist('observation/derivative-returned-earlier-follows-later-in-place-change-of-x/' +
+                      type(op).__name__)
+    except Exception as e:  # noqa
+        problems.append('history checks raised {}: {}'.format(type(e).__name__, str(e)[:200]))
+    return problems
 
 
 NOT_PROVIDED = ['<no derivative provided: NotImplementedError>']
@@ -807,6 +958,8 @@ def oracle_on(op, x, d, exact_linear=True, tol=1e-7, rate=True, allow_notimpl=Fa
             msg = cd_check(op, x, d, Dd, tol=tol, rate=rate)
         if msg:
             problems.append(msg)
+        if not problems:
+            problems.extend(history_check(op, x, d, Dd, tol))
     except Exception as e:  # noqa
         problems.append('evaluation raised {}: {}'.format(type(e).__name__, str(e)[:200]))
     return problems, D, Dd
@@ -835,6 +988,10 @@ def branch_tags(n, op):
             tags.append('pprod/' + ('functional' if m['ran'] == 'R' else 'vector'))
         if k == 'const' and lin:
             tags.append('const/zero-flagged-linear')
+        if m.get('shared'):
+            tags.append('shared/' + k + ('/power-constructor' if m.get('power') else ''))
+            if is_nonlinear_spec(m.get('l') or m['ops'][0]):
+                tags.append('shared/' + k + '/nonlinear')
         if k in ('sum', 'comp', 'pprod'):
             stack.append((m['l'], o.left))
             stack.append((m['r'], o.right))
@@ -952,6 +1109,8 @@ def corrupt(rng, spec):
     for m in nodes:
         k = m['k']
         S, T = m['dom'], m['ran']
+        if m.get('shared'):
+            continue      # (one object in several slots: replacing a child would not be seen)
         if k == 'sum' and isinstance(T, int) and isinstance(S, int):
             how = rng.choice(['tmp_ran', 'tmp_dom', 'range', 'domain'])
             if how == 'tmp_ran':
@@ -1915,6 +2074,9 @@ def run(ctx):
     functional_stream(ctx, 320 if quick else 3000)
     zoo_stream(ctx, 3 if quick else 25)
     ctx.hit('oracle/linear-flag-checked', FLAG_CHECKS[0])
+    for key, cnt in sorted(HIST.items()):
+        ctx.hit(key, cnt)
+    ctx.extra['observations'] = {k: v for k, v in sorted(HIST.items()) if k.startswith('observation/')}
     if not quick:
         unhit = [b for b in EXPECTED_BRANCHES if b not in ctx.branches]
         ctx.extra['unhit_model_branches'] = unhit
@@ -1935,7 +2097,13 @@ EXPECTED_BRANCHES = ['model/' + b for b in [
     ['wrap:' + w for w in WRAPS] + ['translate-of-linear-under-wrap:' + w for w in WRAPS]] + [
     'oracle/functional-part/' + b for b in ['linquad', 'linpert', 'zerofun', 'translate', 'scalarsum', 'rvec',
                                             'lscal', 'rscal', 'sum', 'quot', 'prod', 'opcomp']] + [
-    'oracle/linear-flag-checked']
+    'oracle/linear-flag-checked'] + [
+    'model/shared/' + b for b in ['sum', 'pprod', 'comp', 'bcast', 'reduce', 'diag', 'pso',
+                                  'bcast/power-constructor', 'reduce/power-constructor',
+                                  'diag/power-constructor', 'sum/nonlinear', 'comp/nonlinear',
+                                  'bcast/nonlinear', 'reduce/nonlinear', 'diag/nonlinear', 'pso/nonlinear']] + [
+    'oracle/history/' + b for b in ['repeat-same-point', 'interleaved-x-y-x', 'in-place-mutation',
+                                    'cd-at-mutated-point']]
 
 
 def search(ctx, broken):
